@@ -201,6 +201,22 @@ def sweep_cases():
     return out
 
 
+GITHUB_URIS = ["https://github.com/biopragmatics/curies/issues/12", "https://github.com/acme/known-issues/blob/main/README", "https://github.community/t/tissues/1234"]
+
+
+def check_github():
+    """URIs that start with 'https://github.com' and contain 'issues' are ordinary URIs for the statement; discover has an
+    (acknowledged) special case that drops them.  A listed finding (known_findings.json): its own unit, its own signature."""
+    fails = []
+    for u in GITHUB_URIS:
+        res = discover([u, u[:-1] + "9"])
+        c = res.compress(u)
+        if c is None or res.expand(c) != u:
+            fails.append(("github-issues-special-case/learnable-uri-dropped", f"discover([{u!r}, ...]) returns {[(r.prefix, r.uri_prefix) for r in res.records]}: compress({u!r}) = {c!r}"))
+            break
+    return fails
+
+
 def units(tier, seed):
     k_full = 3
     sets = [list(s) for n in range(0, k_full + 1) for s in it.combinations(range(len(URIS)), n)]
@@ -208,10 +224,16 @@ def units(tier, seed):
     sets4 = [list(s) for s in it.combinations(range(len(URIS)), 4)]
     us += [{"kind": "full" if tier == "thorough" else "light", "sets": ch, "maxlen": 4} for ch in chunks(sets4, 128)]
     us += [{"kind": "sweep", "part": i, "of": 8} for i in range(8)]
+    us.append({"kind": "github"})
     return us
 
 
 def run_unit(unit, ctx):
+    if unit["kind"] == "github":
+        ctx.count("transitions", len(GITHUB_URIS))
+        for sig, msg in check_github():
+            ctx.violation("C19/" + sig, msg, {"kind": "github"})
+        return
     if unit["kind"] == "sweep":
         for i, case in enumerate(sweep_cases()):
             if i % unit["of"] != unit["part"]:
@@ -247,6 +269,8 @@ def run_unit(unit, ctx):
 
 
 def replay(case, ctx=None):
+    if case.get("kind") == "github":
+        return [("C19/" + s, m) for s, m in check_github()]
     return [("C19/" + s, m) for s, m in check(tuple(case["seq"]), case["delims"], case["cutoff"], case["metaprefix"], case["existing"], ctx)]
 
 
